@@ -28,7 +28,13 @@ def singleton_phens(rng):
          ('qh', [P('s', ['0000', '0001', '0000'], [['eq:1'], ['eq:2'], ['eq:3']], singleton=True)])],
         [('ph', [P('one', ['0000'], [['eq:0']], singleton=True), P('s', ['0000', '0010', '0000'], [['eq:0'], ['eq:1'], ['eq:2']], singleton=True)])],
     ]
-    if rng.random() < 0.5:
+    # names that coincide once (phenomenon, pattern) are joined with a separator: ('a','b_c') vs ('a_b','c')
+    for sep in ('_', '-', '.'):
+        fam.append([('a', [P(f'b{sep}c', ['0000', '0000', '0000'], [['eq:0'], ['eq:1'], ['eq:2']], singleton=True)]),
+                    (f'a{sep}b', [P('c', ['0000', '0000', '0000'], [['eq:0'], ['eq:1'], ['eq:2']])])])
+        fam.append([(f'a{sep}b', [P('c', ['0000', '0100', '0000'], [['eq:0'], ['eq:1'], ['eq:2']])]),
+                    ('a', [P(f'b{sep}c', ['0000', '0000', '0000'], [['eq:0'], ['eq:1'], ['eq:2']], singleton=True, halt=['eq:4'])])])
+    if rng.random() < 0.6:
         return rng.choice(fam)
     while True:
         phens = gp.random_phens(rng)
